@@ -8,7 +8,17 @@ pid, wt, rnd = sys.argv[1], sys.argv[2], sys.argv[3]
 prop = [json.loads(l) for l in open(os.path.join(ROOT, "properties.jsonl")) if json.loads(l)["id"] == pid][0]
 prev = json.load(open(os.path.join(ROOT, ".work", "round1-seeds.json"))).get(pid, [])
 root_pkg = any("/" not in f for f in prop["anchors"]["files"])
-R3 = "" if rnd != "3" else """
+R4TXT = """
+Round-4 emphasis: three earlier rounds seeded the spots listed above. Produce TWO changes (not three; out/1 and out/2).
+Go where they did not: (a) code the property DEPENDS ON but that is not in its anchor list — shared helpers in
+internal/utils (rtt_stats, ringbuffer, linkedlist), internal/protocol (packet number / stream id / version arithmetic),
+internal/qerr, internal/monotime, buffer_pool.go, send_queue.go, sys_conn / send_conn, mtu_discoverer.go, qlog hooks that
+feed back into behaviour, config.go populateConfig/validateConfig, transport parameter (un)marshalling — a slip THERE
+that breaks THIS property; or (b) an ERROR PATH / cleanup path of the anchored code (what happens after a failed write, a
+rejected frame, a cancelled context, a closed stream) that leaves state behind which breaks the property on the NEXT
+operation; or (c) state carried across a reset / restart / reuse (0-RTT rejection, Retry, version negotiation re-dial,
+reused transport, pooled objects reused without reset). Still: compiles, existing tests pass, needs something specific."""
+R3 = R4TXT if rnd == "4" else "" if rnd != "3" else """
 Round-3 emphasis: two earlier rounds already seeded the obvious spots (the list above). Look for SUBTLER breakage:
 at least one of your three changes should consist of TWO cooperating edits in different functions/files that each look
 harmless alone; at least one should only manifest under a particular interleaving, timing (timer/deadline ordering) or a
@@ -38,7 +48,7 @@ unedited: `go test -count=1 <pkg>` before and after.
 
 ## Your task
 
-Produce THREE different, realistic code changes — each the kind of slip a maintainer could make in a refactor or
+Produce {"TWO" if rnd == "4" else "THREE"} different, realistic code changes — each the kind of slip a maintainer could make in a refactor or
 "optimisation" (an off-by-one, a wrong comparison, a dropped branch, a stale field, a wrong order of two statements, a
 value read before it is updated, min/max or two neighbouring fields mixed up, a shallow copy, two cooperating edits that
 each look fine alone) — each of which
@@ -61,7 +71,7 @@ Spread your three changes over different sentences of the property and different
 
 ## Output
 
-For each change i in 1,2,3 create `{wt}/out/i/` containing: `patch.diff` (`git diff` of the SOURCE change only, without
+For each change i (1..{"2" if rnd == "4" else "3"}) create `{wt}/out/i/` containing: `patch.diff` (`git diff` of the SOURCE change only, without
 the demo test), the demo test file, and `meta.json` with keys "property": "{pid}", "summary" (one sentence), "needs"
 (what specific input/sequence it takes to manifest), "touched_packages" (paths relative to the repo root, e.g. "." or
 "./internal/wire"), "demo_run" (the -run regex for the demo test), "ran" (the commands you ran and their outcomes:
